@@ -5,6 +5,11 @@ PROPS = {
         "ax": True,
         "level": "proof",
     },
+    "C15": {
+        "vx": ["solver_reader"],
+        "kl": ["solver_msg"],
+        "level": "proof",
+    },
     "C20": {
         "vx": ["dse_coalesce"],
         "kl": ["dse_delete_entries"],
